@@ -306,6 +306,32 @@ pub fn gen_plan(property: &str, seed: u64, index: u64, tier: Tier) -> Plan {
                 pos = pos.make(&legal[k]);
             }
         }
+        "C16" => {
+            // whole games through the Game API as the loops drive it: the move-count draw must be
+            // reported exactly from clock 100 on, also in positions the game has already checked before
+            scenario = "game-loop-move-count";
+            let (_, s) = choose_start(&mut rng, &[(StartKind::Endgame, 3), (StartKind::Initial, 2), (StartKind::Special, 1)]);
+            start = s;
+            let len = rng.range(104, if thorough { 220 } else { 130 });
+            let mut pos = start.clone();
+            let mut own: [Option<Mv>; 2] = [None, None];
+            let policy = if rng.chance(1, 2) { Policy::Shuffle } else { Policy::Frozen };
+            for _ in 0..len {
+                let legal = pos.legal_moves();
+                if legal.is_empty() {
+                    break;
+                }
+                let side = pos.stm as usize;
+                let quiet: Vec<usize> = (0..legal.len()).filter(|&i| legal[i].piece != P::Pawn && legal[i].capture.is_none()).collect();
+                let mut k = choose_move(&mut rng, &pos, &legal, policy, own[side].as_ref());
+                if (legal[k].piece == P::Pawn || legal[k].capture.is_some()) && !quiet.is_empty() {
+                    k = *rng.pick(&quiet);
+                }
+                ops.push(Op::Make(k as u32));
+                own[side] = Some(legal[k]);
+                pos = pos.make(&legal[k]);
+            }
+        }
         "C17" => {
             scenario = "game-loop";
             let (_, s) = choose_start(&mut rng, &[(StartKind::Initial, 3), (StartKind::Special, 2), (StartKind::Endgame, 3)]);
@@ -670,7 +696,31 @@ pub fn exec(plan: &Plan) -> Outcome {
                     continue;
                 }
                 let m = legal[*k as usize % legal.len()];
-                if prop == "C17" {
+                if prop == "C16" {
+                    set_phase("game-loop");
+                    let over = game.check_game_over_for_current_turn();
+                    evals += 1;
+                    if pos.half >= 100 {
+                        stats.bump("probe/game-loop-clock-100-or-more");
+                    }
+                    if multiset.get(&pos.fingerprint()).copied().unwrap_or(0) >= 2 {
+                        stats.bump("probe/game-over-asked-in-a-revisited-position");
+                    }
+                    let is_draw = matches!(over, Some(GameEnding::Draw));
+                    if is_draw != (pos.half >= 100) {
+                        out.violation = Some(Violation {
+                            class: format!("C16/game-api-move-count-draw/{}", if is_draw { "declared-early" } else { "not-declared-at-100" }),
+                            detail: format!("{} after {:?}: {} plies since the last capture or pawn move but check_game_over_for_current_turn() = {:?}", pos.to_fen(), history.iter().map(|m| m.uci()).collect::<Vec<_>>().len(), pos.half, over),
+                            at_op: i,
+                        });
+                        break;
+                    }
+                    let cmd = MakeMove::Coordinate { from_square: sq_name(m.from), to_square: sq_name(m.to) };
+                    if cmd.execute(&mut game).is_err() {
+                        out.desync = Some(format!("game-loop: legal coordinates {} rejected", m.uci()));
+                        break;
+                    }
+                } else if prop == "C17" {
                     // exactly as player_vs_player drives the game
                     set_phase("game-loop");
                     let over = game.check_game_over_for_current_turn();
@@ -708,7 +758,7 @@ pub fn exec(plan: &Plan) -> Outcome {
                     }
                 }
                 game.board_mut().toggle_turn();
-                let played = if prop == "C17" && m.promo.is_some() {
+                let played = if (prop == "C17" || prop == "C16") && m.promo.is_some() {
                     *legal.iter().find(|x| x.from == m.from && x.to == m.to && x.promo == Some(P::Queen)).unwrap()
                 } else {
                     m
